@@ -32,10 +32,16 @@ static void init_states(ByteSource& s, const Problem& p, TSolver& S, Model& m) {
 static std::unique_ptr<Problem> gen_problem(ByteSource& s) {
   std::unique_ptr<Problem> p(new Problem());
   p->nx = 1 + (int)s.choose(3); p->d = gen_dim(s); p->nr = 1 + (int)s.choose(2); p->ns = (int)s.choose(3);
-  unsigned tk = s.choose(4);
-  p->t_ini = tk == 0 ? 0.0 : tk == 1 ? 2 * s.dense() : tk == 2 ? 100 * (0.5 + s.unif01()) : (double)s.range(-5, 5);
+  unsigned tk = s.choose(5);
+  p->t_ini = tk == 0 ? 0.0 : tk == 1 ? 2 * s.dense() : tk == 2 ? 100 * (0.5 + s.unif01()) : tk == 3 ? (double)s.range(-5, 5) : 0.0;
   p->family = FAM_DIAGONAL; p->manufactured_scalar = false; p->g_timedep = false;
   gen_problem_coeffs(s, *p);
+  if (tk == 4) {
+    // a clock far from zero (spacing of doubles at t up to 2.4e-4, comparable with the segments): the elapsed time is what counts. The
+    // terms are made time independent here, so that the rounding of the absolute stage times cannot enter the comparison.
+    p->t_ini = std::ldexp(1.0 + s.unif01(), s.range(20, 40)) * (s.flag() ? -1 : 1);
+    p->f1 = 0;
+  }
   return p;
 }
 
@@ -57,6 +63,7 @@ void run_case(ByteSource& s, CaseInfo& ci) {
   T->set_mask(mask, 0); T->Set_GSL_step(STEPPERS[stepper]); T->Set_rel_error(1e-10); T->Set_abs_error(1e-10); T->Set_h(1e-4); T->Set_h_max(0.05);
   copy_state_to_twin();
   double cur_rel = 1e-10, cur_abs = 1e-10;
+  if (fabs(P->t_ini) > 1e5) ci.label("clock-far-from-zero");
   std::string hist = fmt("[nx=%d d=%d nr=%d ns=%d t_ini=%.6g mask=%u] ", P->nx, P->d, P->nr, P->ns, P->t_ini, mask);
   int numeric_evolves = 0, events_between = 0; bool nontrivial = false;
   int nstep = 2 + (int)s.choose(11);
@@ -73,7 +80,9 @@ void run_case(ByteSource& s, CaseInfo& ci) {
       }
     }
     double want = m.clock;
-    CHECK(fabs(S->Get_t() - want) <= (4.0 + m.evolves + 2.0 * m.fixed_ulps) * 2.3e-16 * (fabs(want) + fabs(P->t_ini) + 1), "C10|clock", "after %s: Get_t=%.17g model %.17g :: %s", after, S->Get_t(), want, hist.c_str());
+    // "up to rounding": one rounding of the running sum per call (the model adds the same dt in double); the n internal steps of a
+    // fixed-step call are not n roundings of the clock (until /repo fix 3860b4f the tolerance had a term for them)
+    CHECK(fabs(S->Get_t() - want) <= (2.0 + m.evolves) * 2.3e-16 * (fabs(want) + fabs(P->t_ini)) + 1e-300, "C10|clock", "after %s: Get_t=%.17g model %.17g :: %s", after, S->Get_t(), want, hist.c_str());
     CHECK(S->Get_t_initial() == P->t_ini, "C10|initial-time", "after %s: %.17g vs %.17g :: %s", after, S->Get_t_initial(), P->t_ini, hist.c_str());
   };
   for (int st = 0; st < nstep; st++) {
@@ -102,13 +111,13 @@ void run_case(ByteSource& s, CaseInfo& ci) {
       }
       CHECK(bit_equal(S->Get_t(), T->Get_t()), "C10|clock-differs-from-never-moved-twin", "%.17g vs %.17g :: %s", S->Get_t(), T->Get_t(), hist.c_str());
       bool loose = adaptive && (cur_rel > 1e-9 || cur_abs > 1e-9);
-      // the model clock (t_ini + sum dt) is compared with Get_t separately; the propagation interval is the one the library
-      // itself reports, because fixed stepping accumulates n roundings in t
-      double t0 = tprev; m.clock = m.clock + dt; m.evolves++;
-      if (eff && !adaptive) m.fixed_ulps += (int)nsteps;
-      ld t1 = (ld)S->Get_t();
+      // the state is propagated over exactly dt from the model clock (the clock itself, t_ini + sum dt in double, is compared with Get_t
+      // separately): with a clock far from zero the rounded clock cannot resolve dt, the evolution still has to
+      (void)tprev;
+      ld t0 = (ld)m.clock; m.clock = m.clock + dt; m.evolves++;
+      ld t1 = t0 + (ld)dt;
       if (eff) {
-        for (int ix = 0; ix < P->nx; ix++) { for (int ir = 0; ir < P->nr; ir++) m.r[ix][ir] = P->exact_rho(ix, ir, m.r[ix][ir], (ld)t0, t1, eff); for (int is = 0; is < P->ns; is++) m.s[ix][is] = P->exact_scalar(ix, is, m.s[ix][is], (ld)t0, t1, eff); }
+        for (int ix = 0; ix < P->nx; ix++) { for (int ir = 0; ir < P->nr; ir++) m.r[ix][ir] = P->exact_rho(ix, ir, m.r[ix][ir], t0, t1, eff); for (int is = 0; is < P->ns; is++) m.s[ix][is] = P->exact_scalar(ix, is, m.s[ix][is], t0, t1, eff); }
         if (dt > 0) { m.tol_r += loose ? 3e-2L : 2e-7L; m.tol_s += loose ? 3e-2L : 2e-7L; numeric_evolves++; if (numeric_evolves >= 2 && events_between > 0) nontrivial = true; events_between = 0; }
       } else {
         size_t q = 0;
@@ -182,4 +191,26 @@ void run_case(ByteSource& s, CaseInfo& ci) {
 void enumerate(const Emit&, const std::string&) {}
 
 // no defect of the pinned tree was found behind this property
-void regressions() {}
+// fixed findings 9855a0d (failed Evolve: in-step view, clock) and 3860b4f (integration in absolute time: clock drift with fixed steps, evolution
+// lost or gained when the clock is far from zero)
+void regressions() {
+  for (double ti : {4.0, 1e8, -3.5e11}) for (int fixed = 0; fixed < 2; fixed++) {
+    Problem p; p.nx = 1; p.d = 2; p.nr = 1; p.ns = 1; p.t_ini = ti; p.family = FAM_DIAGONAL; p.manufactured_scalar = false; p.g_timedep = false;
+    uint8_t zero[1] = {0}; ByteSource bs(zero, 0); gen_problem_coeffs(bs, p); p.f1 = 0;
+    TSolver S(p);
+    S.set_mask(M_COH | M_GS, 0);
+    S.Set_GSL_step(gsl_odeiv2_step_rkf45); S.Set_AdaptiveStep(!fixed); S.Set_NumSteps(100); S.Set_h(1e-4); S.Set_h_max(0.05);
+    S.Set_rel_error(fixed ? 1e-4 : 1e-10); S.Set_abs_error(fixed ? 1e-4 : 1e-10);
+    for (int k = 0; k < 4; k++) S.rho(0, 0)[k] = 0.3 + 0.1 * k;
+    S.scalar(0, 0) = 1.0;
+    Mat r0 = toM(comps(S.rho(0, 0)), 2); ld s0 = 1.0L;
+    double clock = ti; const int ncalls = 64; const double dt = 1.0 / 128;
+    for (int c = 0; c < ncalls; c++) { S.Evolve(dt); clock += dt; }
+    CHECK(S.Get_t() == clock, "C10|clock", "regression: t_ini=%g %s: Get_t=%.17g, t_ini + 64 x 2^-7 = %.17g", ti, fixed ? "fixed" : "adaptive", S.Get_t(), clock);
+    ld T = (ld)ncalls * (ld)dt;
+    Mat want = p.exact_rho(0, 0, r0, 0, T, M_COH | M_GS); ld swant = p.exact_scalar(0, 0, s0, 0, T, M_COH | M_GS);
+    ld err = maxabs(toM(comps(S.rho(0, 0)), 2) - want), serr = fabsl((ld)S.scalar(0, 0) - swant);
+    ld tol = fixed ? 1e-5L : 2e-7L;
+    CHECK(err <= tol && serr <= tol, "C10|state-differs-from-piecewise-exact-propagation", "regression: t_ini=%g %s: 64 calls of Evolve(2^-7): rho error %.3Lg scalar error %.3Lg", ti, fixed ? "fixed" : "adaptive", err, serr);
+  }
+}
